@@ -34,7 +34,7 @@ func main() {
 		}
 		c := NewCtx(prop, *tier, s, *out)
 		if prop != "C06" {
-			otherConfigurationsFirst()
+			otherConfigurationsFirst(c)
 		}
 		r(c)
 		c.Close()
